@@ -18,12 +18,17 @@ open Kit Kit.Broadcaster
 
 abbrev SSet := Std.HashSet State
 
+/-- Safety valve: a trace whose state set grows beyond this is answered `overflow` (the harness
+counts it as not validated, never as accepted). -/
+def cap : Nat := 40000
+
 /-- τ-closure by worklist. `fuel` bounds the number of expansions (never reached in practice;
 reported as an error if it is). -/
 partial def closure (v : Variant) (todo : List State) (seen : SSet) : SSet :=
   match todo with
   | [] => seen
   | s :: rest =>
+    if seen.size > cap then seen else
     let succs := (taus v s).filterMap (step v s)
     let (todo', seen') := succs.foldl (fun (acc : List State × SSet) s' =>
       if acc.2.contains s' then acc else (s' :: acc.1, acc.2.insert s')) (rest, seen)
@@ -80,9 +85,11 @@ def stepLine (d : DState) (line : String) : DState × String :=
     match parseObs l with
     | none => (d, "error bad-event")
     | some o =>
-      if d.dead then (d, "reject at=earlier prev=0 state=-") else
+      if d.dead then (d, "dead") else
       let nxt := applyObs d.variant d.cur o
-      if nxt.size == 0 then
+      if nxt.size > cap then
+        ({ d with cur := nxt, dead := true }, s!"overflow n={nxt.size}")
+      else if nxt.size == 0 then
         let st := match d.cur.toList with
           | s :: _ => showState s
           | [] => "-"
